@@ -99,7 +99,8 @@ func (tm *Timer) fire(s *Sched) {
 	}
 	select {
 	case tm.c <- epoch.Add(s.clock):
-		s.oh[reflect.ValueOf(tm.c).Pointer()] = mix(s.oh[reflect.ValueOf(tm.c).Pointer()], 62, uint64(s.clock))
+		k := s.key(reflect.ValueOf(tm.c))
+		s.oh[k] = mix(s.oh[k], 62, uint64(s.clock))
 	default:
 	}
 }
